@@ -268,6 +268,21 @@ def build_jobs(ck):
         def ft2(plines=plines, tlines=tlines):
             return fmt(tp.segment((l + '\n' for l in plines), train_text=(l + '\n' for l in tlines)))
         jobs.append(Job('tp', 'wordseg.algos.tp', ['-q', '-T', '@train.txt', '@in.txt'], {'in.txt': fmt(plines), 'train.txt': fmt(tlines)}, expect(ft2)))
+        # the text and the train file use another line boundary than "\n": whatever the command takes for a line end, it takes
+        # the same in both files (both readings accepted, as for wordseg-eval)
+        for brk in ('\u2028', '\x0c'):
+            files = {'in.txt': brk.join(plines) + '\n', 'train.txt': brk.join(tlines) + '\n'}
+            for name, mod, fun, extra in (('tp', 'wordseg.algos.tp', lambda a, b: tp.segment(a, train_text=b), []),
+                                          ('puddle', 'wordseg.algos.puddle', lambda a, b: puddle.segment(a, train_text=b, window=2), ['-w', '2'])):
+                alts = []
+                for split in (str.splitlines, lambda c: c.split('\n')):
+                    def ftb(files=files, split=split, fun=fun):
+                        a, b = ([l + '\n' for l in split(files[n]) if l.strip()] for n in ('in.txt', 'train.txt'))
+                        return fmt(fun(a, b))
+                    alts.append(expect(ftb))
+                j = Job(name, mod, ['-q'] + extra + ['-T', '@train.txt', '@in.txt'], files, alts[0], tag='%s -T line boundary %r' % (name, brk))
+                j.alternatives = alts
+                jobs.append(j)
         # ---- puddle
         nf = rng.randint(1, len(plines) + 1)
         w = rng.randint(1, 3)
